@@ -323,6 +323,13 @@ func c04(c *core.Ctx) {
 		c.EndRule()
 	}
 
+	// ---------------------------------------------------------------- R6
+	if c.Rule("R6", "a context end in the middle of a call cannot turn into success: every exit of the HTTP response reader established an error, a non-OK code or a decoded trailer (shared with C02/R1); a streaming handler's returned (context) error is put on the wire in exactly one trailer frame on every path except after a failed response write (shared with C11/R4)", 6) {
+		c02HttpEOF(c)
+		c11OneTrailer(c, httpHandlerClosures(p))
+		c.EndRule()
+	}
+
 	// ---------------------------------------------------------------- R5
 	if c.Rule("R5", "no success after a known context error: in the client-side call/receive functions no nil (success) return is reachable from an edge on which ctx.Err() != nil was established", 3) {
 		n := 0
